@@ -2,6 +2,7 @@ import Driver.Bitint
 import Driver.Instant
 import Driver.Strpf
 import Driver.Scale
+import Driver.Sort
 open Driver
 
 def step (line : String) : String :=
@@ -12,6 +13,7 @@ def step (line : String) : String :=
     else if op.startsWith "i." then runInstant op args
     else if op.startsWith "s." then runStrpf op args
     else if op.startsWith "c." then runScale op args
+    else if op.startsWith "q." then runSort op args
     else "bad-op"
 
 partial def loop (h : IO.FS.Stream) (out : IO.FS.Stream) : IO Unit := do
